@@ -4,7 +4,10 @@
 (*   case = [id, sub ("dm" | "legacy"), started (BOOLEAN: was HA started before step 1),    *)
 (*           ctxs |-> <<contexts that exist>>,                                              *)
 (*           steps |-> << [act |-> abstract action with arguments, obs |-> observation,      *)
-(*                         rush |-> BOOLEAN: no observation, next action issued at once] >> ] *)
+(*                         rush |-> BOOLEAN: no observation, next action issued at once,      *)
+(*                         tick |-> BOOLEAN: no observation of its own - the SAME SCRIPT goes  *)
+(*                                  on, without yielding, with the occurrence of the next step;*)
+(*                                  that step's observation holds the runs of both] >> ]        *)
 (* Every step is taken with the action of Lifecycle.tla (Eager = TRUE: the code is sampled  *)
 (* at quiescence) and the recorded observation must equal the projection Proj of the        *)
 (* model's next state:  obs = Proj'.  One behaviour per (case, flag set); it ends with      *)
@@ -23,20 +26,22 @@ Cases == Input.cases
 FlagSeqs == Input.flagsets
 ToSet(q) == { q[i] : i \in 1..Len(q) }
 
-VARIABLES cid, fs, k, ok, cut
-tvars == <<vars, cid, fs, k, ok, cut>>
+VARIABLES cid, fs, k, ok, cut,
+          carry        \* runs made by a tick step (startup / shutdown runs): observed together with the occurrence's
+VARIABLE shown         \* the runs expected in the observation of the last step (for the REJECT line)
+tvars == <<vars, cid, fs, k, ok, cut, carry, shown>>
 
-DeclOf(j) == [st |-> ToSet(j.st), ev |-> ToSet(j.ev), tt |-> ToSet(j.tt), svc |-> ToSet(j.svc), resp |-> j.resp, sf |-> j.sf, alt |-> j.alt]
+DeclOf(j) == [st |-> ToSet(j.st), ev |-> ToSet(j.ev), tt |-> ToSet(j.tt), svc |-> ToSet(j.svc), resp |-> j.resp, sf |-> j.sf, alt |-> j.alt, dup |-> ToSet(j.dup)]
 DefsOf(q) == [i \in 1..Len(q) |-> [n |-> q[i].n, d |-> DeclOf(q[i].d)]]
 
-TInit == /\ cid \in 1..Len(Cases) /\ fs \in 1..Len(FlagSeqs) /\ k = 0 /\ ok = TRUE /\ cut = 0
+TInit == /\ cid \in 1..Len(Cases) /\ fs \in 1..Len(FlagSeqs) /\ k = 0 /\ ok = TRUE /\ cut = 0 /\ carry = {} /\ shown = {}
          /\ flags = ToSet(FlagSeqs[fs]) /\ sub = Cases[cid].sub /\ started = Cases[cid].started
          /\ unloaded = FALSE /\ loaded = ToSet(Cases[cid].ctxs)
          /\ G = <<>> /\ bind = [c \in Ctx |-> [n \in Name |-> 0]] /\ cont = [c \in Ctx |-> EmptyCont]
          /\ cnt = [s \in Svc |-> 0] /\ own = [s \in Svc |-> NoOwner] /\ hd = [s \in Svc |-> 0]
          /\ subs = [x \in Ent |-> {}] /\ lst = [e \in Ev |-> {}] /\ tm = {}
          /\ runs = {} /\ res = NoRes /\ quiet = TRUE /\ hot = {} /\ steps = 0 /\ lastAct = [a |-> "init"]
-         /\ imp = {}
+         /\ imp = {} /\ tick = FALSE /\ cold = {}
 
 Do(a) == CASE a.a = "define" -> Define(a.c, a.n, DeclOf(a.d))
            [] a.a = "del"    -> Del(a.c, a.n)
@@ -56,7 +61,7 @@ Do(a) == CASE a.a = "define" -> Define(a.c, a.n, DeclOf(a.d))
 
 \* the recording as a value comparable with Proj: runs as a set (the count is compared separately)
 ObsVal(o) == [o EXCEPT !.runs = ToSet(o.runs)]
-Matches(o) == ObsVal(o) = Proj' /\ Len(o.runs) = Cardinality(runs')
+Matches(o) == ObsVal(o) = [Proj' EXCEPT !.runs = runs' \cup carry] /\ Len(o.runs) = Cardinality(runs' \cup carry)
 
 \* The guards that keep the generators inside the specified region (cross-context conflicts only with one
 \* service, contents, no plain call of a response-only service) are evaluated on the model's state.  The
@@ -78,14 +83,22 @@ InRegion(a) == CASE a.a \in {"define", "push"} -> ConflictOK(a.c, DeclOf(a.d)) /
                  [] OTHER -> TRUE
 TNext == /\ ok /\ cut = 0 /\ k < Len(Cases[cid].steps)
          /\ IF InRegion(Cases[cid].steps[k + 1].act)
-            THEN /\ Do(Cases[cid].steps[k + 1].act)
+            THEN \* (fixed BEFORE the action is taken: the action then only tests its own choice of quiet' / tick')
                  /\ quiet' = ~Cases[cid].steps[k + 1].rush
+                 /\ tick' = Cases[cid].steps[k + 1].tick
+                 /\ Do(Cases[cid].steps[k + 1].act)
                  /\ k' = k + 1
                  \* a "rush" step carries no observation (the next action was issued before quiescence); it must
                  \* not run anything by itself: what was run is compared at the next observed step
-                 /\ ok' = IF Cases[cid].steps[k + 1].rush THEN runs' = {} ELSE Matches(Cases[cid].steps[k + 1].obs)
+                 \* a "tick" step carries no observation either: the script goes on at once with the occurrence of
+                 \* the next step, whose observation (at quiescence) shows what both have run
+                 /\ ok' = IF Cases[cid].steps[k + 1].rush THEN runs' = {}
+                          ELSE IF Cases[cid].steps[k + 1].tick THEN TRUE
+                          ELSE Matches(Cases[cid].steps[k + 1].obs)
+                 /\ carry' = IF Cases[cid].steps[k + 1].tick THEN runs' ELSE {}
+                 /\ shown' = runs' \cup carry
                  /\ cut' = 0
-            ELSE /\ cut' = k + 1 /\ UNCHANGED <<vars, k, ok>>
+            ELSE /\ cut' = k + 1 /\ UNCHANGED <<vars, k, ok, carry, shown>>
          /\ UNCHANGED <<cid, fs>>
 TSpec == TInit /\ [][TNext]_tvars
 
@@ -95,7 +108,7 @@ SetToSeq(S) == LET RECURSIVE F(_)
 Report ==
   IF ~ok THEN PrintT("REJECT " \o ToJson([id |-> Cases[cid].id, fs |-> fs, step |-> k,
                                            act |-> Cases[cid].steps[k].act.a,
-                                           exp |-> [Proj EXCEPT !.runs = SetToSeq(runs)],
+                                           exp |-> [Proj EXCEPT !.runs = SetToSeq(shown)],
                                            obs |-> Cases[cid].steps[k].obs]))
   ELSE IF k = Len(Cases[cid].steps) \/ cut > 0
        THEN PrintT("ACCEPT " \o ToJson([id |-> Cases[cid].id, fs |-> fs, cut |-> cut]))
